@@ -55,6 +55,11 @@ const regTimeoutHint = 15 * time.Minute // generator hint only; the model takes 
 var getFaultClasses = []string{"err", "notfound", "conflict"}
 var delFaultClasses = []string{"err", "notfound"}
 
+// the random stream draws the classes the code tells apart three times as often as the remaining apiErrClasses
+// (Timeout, TooManyRequests, Forbidden, wrapped NotFound, context errors, ...: "just an error" for the model)
+var getFaultClassesGen = append(append(append(append([]string{}, getFaultClasses...), getFaultClasses...), getFaultClasses...), apiErrClasses...)
+var delFaultClassesGen = append(append(append(append([]string{}, delFaultClasses...), delFaultClasses...), delFaultClasses...), apiErrClasses...)
+
 func genFaultList(r *rand.Rand, classes []string, p float64) []string {
 	out := []string{}
 	for i := 0; i < 2; i++ {
@@ -133,9 +138,9 @@ func genLive(r *rand.Rand, _ core.Tier) any {
 	for i, n := 0, r.IntN(6); i < n; i++ {
 		in.Prior = append(in.Prior, r.Float64() < 0.5)
 	}
-	in.GetFaults = genFaultList(r, getFaultClasses, 0.12)
-	in.PatchFaults = genFaultList(r, getFaultClasses, 0.15)
-	in.DeleteFaults = genFaultList(r, delFaultClasses, 0.12)
+	in.GetFaults = genFaultList(r, getFaultClassesGen, 0.12)
+	in.PatchFaults = genFaultList(r, getFaultClassesGen, 0.15)
+	in.DeleteFaults = genFaultList(r, delFaultClassesGen, 0.12)
 	return in
 }
 
@@ -221,7 +226,7 @@ func implLive(raw json.RawMessage) (any, error) {
 	c := newClient(interceptor.Funcs{
 		Get: func(ctx context.Context, w client.WithWatch, key client.ObjectKey, obj client.Object, opts ...client.GetOption) error {
 			if _, ok := obj.(*v1.NodePool); ok && armed {
-				if err := faultErr(nth(in.GetFaults, rec.bump("get")), key.Name); err != nil {
+				if err := apiErr(nth(in.GetFaults, rec.bump("get")), key.Name); err != nil {
 					return err
 				}
 			}
@@ -229,7 +234,7 @@ func implLive(raw json.RawMessage) (any, error) {
 		},
 		SubResourcePatch: func(ctx context.Context, cl client.Client, sub string, obj client.Object, patch client.Patch, opts ...client.SubResourcePatchOption) error {
 			if _, ok := obj.(*v1.NodePool); ok && armed {
-				if err := faultErr(nth(in.PatchFaults, rec.bump("patch")), obj.GetName()); err != nil {
+				if err := apiErr(nth(in.PatchFaults, rec.bump("patch")), obj.GetName()); err != nil {
 					return err
 				}
 			}
@@ -238,7 +243,7 @@ func implLive(raw json.RawMessage) (any, error) {
 		Delete: func(ctx context.Context, w client.WithWatch, obj client.Object, opts ...client.DeleteOption) error {
 			if _, ok := obj.(*v1.NodeClaim); ok && armed {
 				i := rec.deleted(obj.GetName())
-				if err := faultErr(nth(in.DeleteFaults, i), obj.GetName()); err != nil {
+				if err := apiErr(nth(in.DeleteFaults, i), obj.GetName()); err != nil {
 					return err
 				}
 			}
